@@ -253,14 +253,29 @@ def stage_real_classes(ctx):
 
         def call(what, fn, want_exc=None, want_ret=None, limit=3.0):
             t0 = rt.time()
+
+            class Stuck(BaseException):
+                pass
+
+            def on_alarm(sig, frm):
+                raise Stuck()
+            import signal as _sg
+            old = _sg.signal(_sg.SIGALRM, on_alarm)
+            _sg.setitimer(_sg.ITIMER_REAL, limit + 4.0)       # a call that blocks for good is a finding, not a reason for the check to hang
             try:
                 r = fn(); got = ('ret', r)
+            except Stuck:
+                got = ('exc', Stuck)
+                problems.append('%s: still blocked after %.0f s' % (what, limit + 4.0))
             except BaseException as e:      # noqa
                 got = ('exc', type(e))
                 try:
                     str(e)
                 except Exception as e2:   # noqa
                     problems.append('%s: str(exception) raised %s' % (what, type(e2).__name__))
+            finally:
+                _sg.setitimer(_sg.ITIMER_REAL, 0)
+                _sg.signal(_sg.SIGALRM, old)
             if want_exc is not None and got != ('exc', want_exc):
                 problems.append('%s: %s, expected %s to be raised' % (what, got, want_exc.__name__))
             if want_ret is not None and got != ('ret', want_ret):
